@@ -3,6 +3,7 @@ import GraafVerif.Proof.QueryMX
 import GraafVerif.Proof.QueryAM
 import GraafVerif.Proof.QueryEL
 import GraafVerif.Proof.QueryWL
+import GraafVerif.Proof.QueryFast
 /-!
 # C02 — every read-only query returns its textbook definition over `(V, A, w)`
 
@@ -179,6 +180,18 @@ theorem wl_removeArc_total (d : AdjListW) (u v : Nat) (h : d.hasArc u v = false)
   WL.removeArc_absent d h
 example : WL.outNeighborsWeighted ⟨[[(1, -3), (2, 5)], [], [(0, 7)]]⟩ 0 = some [(1, -3), (2, 5)] := by decide
 example : (⟨[[(1, -3), (2, 5)], [], [(0, 7)]]⟩ : AdjListW).arcWeight 2 0 = some 7 := by decide
+
+/-! ## The driver's `Array` twins (large orders) are the proved list models — no hypotheses -/
+/-- `H02` runs `degreeSequenceFast` above order 300 (linear instead of quadratic in the order). -/
+theorem al_degreeSequenceFast_eq (d : AdjList) (t : Nat) : AL.degreeSequenceFast d t = AL.degreeSequence d t :=
+  AL.degreeSequenceFast_eq d t
+theorem al_indegreeSequenceFast_eq (d : AdjList) : AL.indegreeSequenceFast d = AL.indegreeSequence d :=
+  AL.indegreeSequenceFast_eq d
+/-- … hence the twin, too, is the definition for every thread count. -/
+theorem al_degreeSequenceFast_par (d : AdjList) (h : d.WF) (t : Nat) (ht : 0 < t) :
+    AL.degreeSequenceFast d t = Spec.degreeSequence (AL.abs d) := by
+  rw [AL.degreeSequenceFast_eq]; exact AL.degreeSequence_par h t ht
+example : AL.degreeSequenceFast ⟨[[1, 2], [2], []]⟩ 2 = [2, 2, 2] := by decide
 
 /-- **C02, full statement.** -/
 theorem statement : Statement :=
